@@ -48,7 +48,7 @@ PROPS = {
     "C05": dict(theorems=["C05_catch_own_node", "C05_catch_is_local", "C05_elements_are_independent", "C05_engine_computes_semantics"], cone=ENGINE_CONE + ["Proofs/Indep.v", "Proofs/CatchP.v"], rule=ENGINE_RULE,
                 families=[eng("engine", "C05", 1200, 20000, ["nil", "issues", "dest", "panic"])]),
     "C06": dict(theorems=["C06_try_provider_never_panics", "C06_lookup_never_panics", "C06_field_name_never_panics", "C06_parse_struct_never_panics",
-                          "C06_engine_total_on_all_data", "C06_legacy_named_map_panics", "C06_legacy_unexported_field_panics", "C06_legacy_long_key_panics"],
+                          "C06_engine_total_on_all_data", "C06_legacy_named_map_panics", "C06_legacy_unexported_field_panics", "C06_legacy_long_key_panics", "C06_promoted_field_lookup_never_panics", "C06_promoted_behind_nil_is_absent", "C06_legacy_nil_embedded_pointer_panics", "C06_legacy_path_agrees_without_empty_segments", "C06_legacy_empty_key_below_a_key_panics"],
                 cone=["Model/Dyn.v", "Proofs/DynP.v"] + ENGINE_CONE,
                 rule="a grammar over Go dynamic types at a struct position (map[string]any/string/int/float64/bool and their named versions, maps with named string keys, non-string keys, named / interface / slice element types, structs with unexported fields named like schema keys, pointers up to three levels with nil at every level, typed nils, every other kind incl. NaN/Inf, channels, funcs, invalid UTF-8) parsed under recover() by a well-configured struct schema with a 48-byte key; JSON documents of every top-level shape through zjson; one schema reused with two destination layouts; plus the engine and front-end families (wrong types, {} , malformed bodies) with the panic projection; distinct = distinct dynamic types",
                 families=[sat("dyn", "dyn", 600, 6000, ["panic", "model_expects_panic", "root_coerce", "presence", "reuse"], shard=300),
